@@ -238,11 +238,17 @@ func genC03(r *rng.R, tier string, steer bool, idx int) *trace.Trace {
 		nops = r.Range(2, 10)
 	}
 	groups := []string{"/"}
+	// "full": one group is filled to and beyond its 32-entry capacity with short
+	// names (so the 256-byte name heap is not the first limit to be hit)
+	full := r.Chance(0.08)
+	if full {
+		nops = r.Range(33, 46)
+	}
 	var objects []string // datasets and groups (link targets)
 	var all []string     // every path created (for duplicates)
 	nameN := 0
-	longNames := r.Chance(0.15)
-	wide := r.Chance(0.15) // many children in one group: hit the 32-entry capacity
+	longNames := r.Chance(0.15) && !full
+	wide := r.Chance(0.15) || full // many children in one group: hit the 32-entry capacity
 	newName := func() string {
 		nameN++
 		if longNames && r.Chance(0.5) {
@@ -252,7 +258,7 @@ func genC03(r *rng.R, tier string, steer bool, idx int) *trace.Trace {
 			}
 			return s
 		}
-		if r.Chance(0.1) {
+		if r.Chance(0.1) && !full {
 			return fmt.Sprintf("ü%d", nameN)
 		}
 		return fmt.Sprintf("n%d", nameN)
@@ -265,7 +271,9 @@ func genC03(r *rng.R, tier string, steer bool, idx int) *trace.Trace {
 	}
 	for i := 0; i < nops; i++ {
 		parent := rng.Pick(r, groups)
-		if wide {
+		if full {
+			parent = groups[min(1, len(groups)-1)] // the first group created (or the root)
+		} else if wide {
 			parent = groups[0]
 			if len(groups) > 1 && r.Chance(0.7) {
 				parent = groups[1]
@@ -276,6 +284,7 @@ func genC03(r *rng.R, tier string, steer bool, idx int) *trace.Trace {
 		path := join(parent, newName())
 		bad := ""
 		switch {
+		case full && r.Chance(0.97):
 		case r.Chance(0.06) && len(all) > 0:
 			path = rng.Pick(r, all) // duplicate name
 			bad = "duplicate"
